@@ -7,7 +7,6 @@ import (
 	"hash/crc32"
 	"path/filepath"
 	"strconv"
-	"strings"
 )
 
 // AST extraction of x86/zoptab.go (+ the feature/action constants of
@@ -49,8 +48,10 @@ type optabAST struct {
 	IsasLists                [][]string
 	Opcs                     []string
 	OpcStrings               []string
-	Forms                    []optabForm
-	OpcRanges                [][2]int // opcformstable entries forms[lo:hi]
+	Forms                    []optabForm // rows of the COMPILED table (x86.VerifForms) with identifiers resolved through the enums
+	ASTForms                 []optabForm // rows as written in the source, when the literal has a recognised shape (cross-check only)
+	ASTFormsNote             string      // why the source literal was not read (not an error: the compiled table is authoritative)
+	OpcRanges                [][2]int    // opcformstable entries forms[lo:hi]
 	Consts                   map[string]int64
 	Features                 []string // feature const names (optab.go) with values in Consts
 	Actions                  []string
@@ -148,21 +149,23 @@ func switchCases(fd *ast.FuncDecl) (map[string]ast.Expr, error) {
 		if cc.List == nil {
 			continue // default
 		}
-		if len(cc.List) != 1 || len(cc.Body) != 1 {
+		if len(cc.Body) != 1 {
 			return nil, fmt.Errorf("%s: unexpected case shape", fd.Name.Name)
-		}
-		id, ok := cc.List[0].(*ast.Ident)
-		if !ok {
-			return nil, fmt.Errorf("%s: non-identifier case", fd.Name.Name)
 		}
 		rs, ok := cc.Body[0].(*ast.ReturnStmt)
 		if !ok || len(rs.Results) != 1 {
 			return nil, fmt.Errorf("%s: case body is not a return", fd.Name.Name)
 		}
-		if _, dup := out[id.Name]; dup {
-			return nil, fmt.Errorf("%s: duplicate case %s", fd.Name.Name, id.Name)
+		for _, ce := range cc.List { // `case A, B:` = the same result for both
+			id, ok := ce.(*ast.Ident)
+			if !ok {
+				return nil, fmt.Errorf("%s: non-identifier case", fd.Name.Name)
+			}
+			if _, dup := out[id.Name]; dup {
+				return nil, fmt.Errorf("%s: duplicate case %s", fd.Name.Name, id.Name)
+			}
+			out[id.Name] = rs.Results[0]
 		}
-		out[id.Name] = rs.Results[0]
 	}
 	return out, nil
 }
@@ -260,9 +263,7 @@ func parseOptab(repo string) (*optabAST, error) {
 				return nil, fmt.Errorf("enum %s: %s is not %d", typ, n, i)
 			}
 		}
-		if !strings.HasSuffix(names[0], "None") || !strings.HasSuffix(names[len(names)-1], "max") {
-			return nil, fmt.Errorf("enum %s: unexpected None/max names", typ)
-		}
+		// first = the zero value ("None"), last = the bound ("max"), whatever they are called
 		return names[1 : len(names)-1], nil
 	}
 	if t.OprndTypes, err = enum("oprndtype"); err != nil {
@@ -386,15 +387,84 @@ func parseOptab(repo string) (*optabAST, error) {
 	// function shapes of the four table accessors: `if None < x && x < max { return table[x-1] }; return zero`
 	// are exercised through the compiled package by the cross-check below and the harness.
 
-	// forms
-	cl, ok := findVar(zf, "forms").(*ast.CompositeLit)
-	if !ok {
-		return nil, fmt.Errorf("forms table not found")
+	// forms: the rows of the compiled table are authoritative (what the program does); the source literal is read
+	// as well when it has a recognised shape (positional or keyed rows, with or without the uint8 conversion) and
+	// compared with the compiled rows by crossCheckForms
+	if cl, ok := findVar(zf, "forms").(*ast.CompositeLit); ok {
+		if rows, aerr := astFormRows(cl, t); aerr == nil {
+			t.ASTForms = rows
+		} else {
+			t.ASTFormsNote = aerr.Error()
+		}
+	} else {
+		t.ASTFormsNote = "forms literal not found"
 	}
+	if t.Forms, err = formsFromCompiled(t); err != nil {
+		return nil, err
+	}
+	// opcformstable: `forms[lo:hi]` entries; when the literal has another shape, the ranges the compiled package
+	// reports (x86.VerifOpcodeForms: consecutive blocks in opcode order)
+	if rs, rerr := astOpcRanges(findVar(zf, "opcformstable"), t); rerr == nil {
+		t.OpcRanges = rs
+	} else if t.OpcRanges, err = rangesFromCompiled(t); err != nil {
+		return nil, fmt.Errorf("opcformstable: %v; %v", rerr, err)
+	}
+	optabCache[repo] = t
+	return t, nil
+}
+
+// litFields returns the elements of a struct literal by field position: positional elements as they come, keyed
+// elements placed by name (missing fields = nil = zero value).
+func litFields(cl *ast.CompositeLit, names []string) ([]ast.Expr, error) {
+	out := make([]ast.Expr, len(names))
+	keyed := len(cl.Elts) > 0
+	for _, e := range cl.Elts {
+		if _, ok := e.(*ast.KeyValueExpr); !ok {
+			keyed = false
+		}
+	}
+	if !keyed {
+		if len(cl.Elts) != len(names) && len(cl.Elts) != 0 {
+			return nil, fmt.Errorf("%d positional fields, want %d", len(cl.Elts), len(names))
+		}
+		copy(out, cl.Elts)
+		return out, nil
+	}
+	for _, e := range cl.Elts {
+		kv := e.(*ast.KeyValueExpr)
+		k, ok := kv.Key.(*ast.Ident)
+		if !ok {
+			return nil, fmt.Errorf("non-identifier key")
+		}
+		found := false
+		for i, n := range names {
+			if n == k.Name {
+				out[i], found = kv.Value, true
+			}
+		}
+		if !found {
+			return nil, fmt.Errorf("unknown field %s", k.Name)
+		}
+	}
+	return out, nil
+}
+
+// astFormRows reads the `forms` literal of zoptab.go.
+func astFormRows(cl *ast.CompositeLit, t *optabAST) ([]optabForm, error) {
 	ident := func(e ast.Expr) (string, int, error) {
+		if e == nil {
+			return "", 0, nil
+		}
+		if call, ok := e.(*ast.CallExpr); ok && len(call.Args) == 1 { // a conversion such as uint8(x)
+			e = call.Args[0]
+		}
 		id, ok := e.(*ast.Ident)
 		if !ok {
-			return "", 0, fmt.Errorf("forms: expected identifier")
+			v, ok := evalConst(e, 0, t.Consts)
+			if !ok {
+				return "", 0, fmt.Errorf("forms: expected a constant")
+			}
+			return "", int(v), nil
 		}
 		v, ok := t.Consts[id.Name]
 		if !ok {
@@ -402,82 +472,111 @@ func parseOptab(repo string) (*optabAST, error) {
 		}
 		return id.Name, int(v), nil
 	}
+	num := func(e ast.Expr) (int, error) {
+		if e == nil {
+			return 0, nil
+		}
+		v, ok := evalConst(e, 0, t.Consts)
+		if !ok {
+			return 0, fmt.Errorf("forms: cannot evaluate constant expression")
+		}
+		return int(v), nil
+	}
+	var out []optabForm
+	var err error
 	for ri, el := range cl.Elts {
 		row, ok := el.(*ast.CompositeLit)
-		if !ok || len(row.Elts) != 6 {
+		if !ok {
 			return nil, fmt.Errorf("forms row %d: unexpected shape", ri)
 		}
+		fs, ferr := litFields(row, []string{"Opcode", "SuffixesClass", "Features", "ISAs", "Arity", "Operands"})
+		if ferr != nil {
+			return nil, fmt.Errorf("forms row %d: %v", ri, ferr)
+		}
 		var fr optabForm
-		if fr.OpcIdent, fr.Opc, err = ident(row.Elts[0]); err != nil {
+		if fr.OpcIdent, fr.Opc, err = ident(fs[0]); err != nil {
 			return nil, err
 		}
-		if fr.ClsIdent, fr.Cls, err = ident(row.Elts[1]); err != nil {
+		if fr.ClsIdent, fr.Cls, err = ident(fs[1]); err != nil {
 			return nil, err
 		}
-		fv, ok := evalConst(row.Elts[2], 0, t.Consts)
-		if !ok {
+		if fr.Features, err = num(fs[2]); err != nil {
 			return nil, fmt.Errorf("forms row %d: features", ri)
 		}
-		fr.Features = int(fv)
-		if fr.IsaIdent, fr.Isa, err = ident(row.Elts[3]); err != nil {
+		if fr.IsaIdent, fr.Isa, err = ident(fs[3]); err != nil {
 			return nil, err
 		}
-		av, ok := evalConst(row.Elts[4], 0, t.Consts)
-		if !ok {
+		if fr.Arity, err = num(fs[4]); err != nil {
 			return nil, fmt.Errorf("forms row %d: arity", ri)
 		}
-		fr.Arity = int(av)
-		ops, ok := row.Elts[5].(*ast.CompositeLit)
-		if !ok {
-			return nil, fmt.Errorf("forms row %d: operands", ri)
+		if fs[5] != nil {
+			ops, ok := fs[5].(*ast.CompositeLit)
+			if !ok {
+				return nil, fmt.Errorf("forms row %d: operands", ri)
+			}
+			for _, oe := range ops.Elts {
+				o, ok := oe.(*ast.CompositeLit)
+				if !ok {
+					return nil, fmt.Errorf("forms row %d: operand shape", ri)
+				}
+				of, ferr := litFields(o, []string{"Type", "Implicit", "Action"})
+				if ferr != nil {
+					return nil, fmt.Errorf("forms row %d: operand: %v", ri, ferr)
+				}
+				var od optabOprnd
+				if od.TypeIdent, od.Type, err = ident(of[0]); err != nil {
+					return nil, err
+				}
+				if of[1] != nil {
+					b, ok := of[1].(*ast.Ident)
+					if !ok || (b.Name != "true" && b.Name != "false") {
+						return nil, fmt.Errorf("forms row %d: implicit flag", ri)
+					}
+					od.Implicit = b.Name == "true"
+				}
+				if od.ActIdent, od.Action, err = ident(of[2]); err != nil {
+					return nil, err
+				}
+				fr.Operands = append(fr.Operands, od)
+			}
 		}
-		for _, oe := range ops.Elts {
-			o, ok := oe.(*ast.CompositeLit)
-			if !ok || len(o.Elts) != 3 {
-				return nil, fmt.Errorf("forms row %d: operand shape", ri)
-			}
-			var od optabOprnd
-			call, ok := o.Elts[0].(*ast.CallExpr)
-			if !ok || len(call.Args) != 1 {
-				return nil, fmt.Errorf("forms row %d: operand type", ri)
-			}
-			if od.TypeIdent, od.Type, err = ident(call.Args[0]); err != nil {
-				return nil, err
-			}
-			b, ok := o.Elts[1].(*ast.Ident)
-			if !ok || (b.Name != "true" && b.Name != "false") {
-				return nil, fmt.Errorf("forms row %d: implicit flag", ri)
-			}
-			od.Implicit = b.Name == "true"
-			if od.ActIdent, od.Action, err = ident(o.Elts[2]); err != nil {
-				return nil, err
-			}
-			fr.Operands = append(fr.Operands, od)
-		}
-		t.Forms = append(t.Forms, fr)
+		out = append(out, fr)
 	}
-	// opcformstable
-	cl, ok = findVar(zf, "opcformstable").(*ast.CompositeLit)
+	return out, nil
+}
+
+func astOpcRanges(e ast.Expr, t *optabAST) ([][2]int, error) {
+	cl, ok := e.(*ast.CompositeLit)
 	if !ok {
 		return nil, fmt.Errorf("opcformstable not found")
 	}
+	var out [][2]int
 	for i, el := range cl.Elts {
+		if id, isNil := el.(*ast.Ident); isNil && id.Name == "nil" {
+			out = append(out, [2]int{0, 0})
+			continue
+		}
 		se, ok := el.(*ast.SliceExpr)
-		if !ok || se.Low == nil || se.High == nil || se.Max != nil {
+		if !ok || se.Max != nil {
 			return nil, fmt.Errorf("opcformstable[%d]: not forms[lo:hi]", i)
 		}
 		if id, ok := se.X.(*ast.Ident); !ok || id.Name != "forms" {
 			return nil, fmt.Errorf("opcformstable[%d]: not a slice of forms", i)
 		}
-		lo, ok1 := evalConst(se.Low, 0, t.Consts)
-		hi, ok2 := evalConst(se.High, 0, t.Consts)
+		lo, hi := int64(0), int64(len(t.Forms))
+		ok1, ok2 := true, true
+		if se.Low != nil {
+			lo, ok1 = evalConst(se.Low, 0, t.Consts)
+		}
+		if se.High != nil {
+			hi, ok2 = evalConst(se.High, 0, t.Consts)
+		}
 		if !ok1 || !ok2 {
 			return nil, fmt.Errorf("opcformstable[%d]: bounds", i)
 		}
-		t.OpcRanges = append(t.OpcRanges, [2]int{int(lo), int(hi)})
+		out = append(out, [2]int{int(lo), int(hi)})
 	}
-	optabCache[repo] = t
-	return t, nil
+	return out, nil
 }
 
 // encName encodes an ASCII name for the Lean side (Avo.Name):
